@@ -315,6 +315,57 @@ def stage_slow(wd, V, rng, tier):
     return runs
 
 
+def stage_window(wd, V, tier):
+    """C02 over SSH with the transport as the bottleneck: more data than the SSH window (2 MiB) holds, and a consumer that
+    reads a part, pauses for 8 s and then reads on.  When the pause begins the server has pushed what the window takes and
+    blocks inside the LAST message of the file (a 900 KiB line: part of it written, the rest in the hands of the blocked
+    channel write) - every queue the server's flush() looks at is empty although the end of the file is not delivered.
+    Everything must still arrive, once and in order (Session.tla: ServerTakeLine / ServerWrite / ShutdownTimeout)."""
+    import subprocess
+    runs = 0
+    cl = Cluster(os.path.join(wd, "e2e-window"), 1)
+    try:
+        hosts = [s["host"] for s in cl.servers]
+        d = os.path.join(cl.wd, "window")
+        os.makedirs(d, exist_ok=True)
+        os.chmod(d, 0o755)
+        name = "w1.log"
+        lines = [("%s line %07d " % (name, i)).encode() + b"=" * 74 for i in range(22000)]     # about 2.6 MiB on the wire (122 bytes per record)
+        lines.append(b"LAST:" + b"z" * (900 * 1024))
+        open(os.path.join(d, name), "wb").write(b"\n".join(lines) + b"\n")
+        os.chmod(os.path.join(d, name), 0o644)
+        src = {name: lines}
+        for consume in ([1 << 20] if tier == "quick" else [1 << 20, 700 * 1024, 1300 * 1024, 1 << 16]):
+            p = subprocess.Popen(cl.client_cmd("dcat", os.path.join(d, name)), cwd=cl.wd, env=vlib.goenv({"HOME": cl.wd}),
+                                 stdin=subprocess.DEVNULL, stdout=subprocess.PIPE, stderr=subprocess.PIPE, bufsize=0)
+            got = bytearray()
+            while len(got) < consume:
+                b = os.read(p.stdout.fileno(), 65536)
+                if not b:
+                    break
+                got.extend(b)
+            time.sleep(8.0)
+            try:
+                rest, err = p.communicate(timeout=120)
+            except subprocess.TimeoutExpired:
+                p.kill()
+                rest, err = p.communicate()
+                V.violation("SSH, data beyond the SSH window, consumer pausing 8 s after %d bytes: the client did not end" % consume, {"consume": consume})
+                runs += 1
+                continue
+            got.extend(rest)
+            runs += 1
+            bad = check_remote_records(bytes(got), hosts, src)
+            if p.returncode != 0:
+                bad.append("client exit status %s" % p.returncode)
+            if bad:
+                V.violation("SSH, data beyond the SSH window, consumer pausing 8 s after %d bytes: %s" % (consume, bad[0]),
+                            {"bad": bad[:4], "consume": consume, "bytes_received": len(got), "stderr": (err or b"")[-300:].decode(errors="replace")})
+    finally:
+        cl.stop()
+    return runs
+
+
 def max_active_sources(out):
     """REMOTE records only: the largest number of sources (host|file id) that are 'open' at one point of the output, a source
     being open from its first record to its last one.  Reads pass the limiter before they queue their lines into the FIFO
